@@ -115,6 +115,28 @@ func (versionStream) Generate(rng *rand.Rand, tier string, emit func(Case)) {
 			}
 		}
 	}
+	// boundary sweep of the one character-class rule in the version logic: every first byte of a
+	// device name, at every device position, alone and declared as each old version
+	for b := 0; b < 256; b++ {
+		for where := 0; where < 3; where++ {
+			s := baseSpec(3)
+			s.Devices[where].Name = string([]byte{byte(b)}) + "x"
+			emit(Case{"op": "minver", "spec": specToProto(s)})
+			if where == b%3 {
+				for _, v := range []string{"0.3.0", "0.4.0", "0.5.0"} {
+					c := *s
+					c.Version = v
+					emit(Case{"op": "validver", "spec": specToProto(&c)})
+				}
+			}
+		}
+	}
+	// a dot at every position of the class (the other character rule)
+	for _, kind := range []string{"vendor.com/.class", "vendor.com/cl.ass", "vendor.com/class.", "vendor.com/c.l.a", "vendor.com/.", "ven.dor/class", "vendor.com/cl-ass", "vendor.com/cl_ass"} {
+		s := baseSpec(2)
+		s.Kind = kind
+		emitSpec(s, true)
+	}
 	// pairs of features at all placements for 2 and 3 devices
 	for nDev := 2; nDev <= 3; nDev++ {
 		for f := 0; f < nFeatures; f++ {
